@@ -132,7 +132,8 @@ theorem run_complete (ext : List Nat → Bool) (isReq : Bool) (lim : Int) (rest 
 def ClFits (fs : List Field) : Prop := ∀ f ∈ fs, f.1 = nContentLength → decVal f.2 < 2 ^ 63
 
 theorem accept_complete_of_wf (ext : List Nat → Bool) (isReq : Bool) (lim : Int) (fs : List Field)
-    (wf : WellFormed isReq lim fs) (hfit : ClFits fs) : ∃ h, parseHeaders ext isReq lim fs = .ok h := by
+    (wf : WellFormed isReq lim fs) : ∃ h, parseHeaders ext isReq lim fs = .ok h := by
+  have hfit : ClFits fs := wf.cl_range
   obtain ⟨s, hs⟩ := run_complete ext isReq lim fs [] _ (inv_init isReq lim) (by simpa using wf)
   have inv := inv_run ext isReq lim fs [] _ s (inv_init isReq lim) hs
   simp only [List.nil_append] at inv
